@@ -716,7 +716,7 @@ func (cch *cache) RefreshContainers(containers []*nri.Container) ([]Container, [
 
 	for _, c := range containers {
 		valid[c.Id] = struct{}{}
-		if _, ok := cch.Containers[c.Id]; !ok {
+		if cached, ok := cch.Containers[c.Id]; !ok {
 			log.Debug("inserting discovered container %s...", c.Id)
 			inserted, err := cch.InsertContainer(c)
 			if err != nil {
@@ -725,6 +725,10 @@ func (cch *cache) RefreshContainers(containers []*nri.Container) ([]Container, [
 			} else {
 				add = append(add, inserted)
 			}
+		} else {
+			// The cached state may be stale: saved mid-request (creating)
+			// or changed in the runtime while we were not running.
+			cached.UpdateState(c.GetState())
 		}
 	}
 
